@@ -192,7 +192,8 @@ Definition agree (c : case) : bool :=
 Record hstate := mkHS {
   hs_cpidx : Z; hs_cp : list record;        (* the checkpoint as last observed *)
   hs_segs : list (Z * record);              (* every record ever logged, with its segment *)
-  hs_g : Z                                  (* highest effective truncation time so far *)
+  hs_g : Z;                                 (* highest effective truncation time so far *)
+  hs_rs : bool                              (* a restart happened (the head was rebuilt from a truncated log) *)
 }.
 
 Definition hs_log (s : hstate) : list record :=
@@ -234,7 +235,7 @@ Fixpoint nodupb (l : list Z) : bool :=
   match l with [] => true | x :: t => negb (memz x t) && nodupb t end.
 
 Definition holds_trunc (s : hstate) (mint : Z) (cpidx : Z) (cp : list record) : bool * hstate :=
-  let s' := mkHS cpidx cp (hs_segs s) (Z.max (hs_g s) mint) in
+  let s' := mkHS cpidx cp (hs_segs s) (Z.max (hs_g s) mint) (hs_rs s) in
   let g := hs_g s' in
   let pre := hs_log s in
   let post := hs_log s' in
@@ -243,9 +244,10 @@ Definition holds_trunc (s : hstate) (mint : Z) (cpidx : Z) (cp : list record) : 
     let md := meta_dup_labs post cp in
     same_view g (md ++ churned_labs pre post) (replay_data minInt64 post) (replay_data minInt64 pre) &&
     same_view g (md ++ churned_labs pre post) (replay_data g post) (replay_data g pre) &&
-    (* against everything ever logged — unless a series ref was reissued after a restart (refs of series
-       whose records were dropped are free again), which makes the concatenated log meaningless *)
-    (negb (nodupb (map fst (series_pairs full))) ||
+    (* against everything ever logged, as long as the head has not been rebuilt from a truncated log: after
+       a restart the refs that are alive (and reissued) depend on what was dropped, and the concatenation
+       of everything ever logged is no longer a log the implementation could have produced *)
+    (hs_rs s || negb (nodupb (map fst (series_pairs full))) ||
      same_view g (md ++ churned_labs full post) (replay_data minInt64 post) (replay_data minInt64 full)) &&
     preceded g post &&
     meta_preceded_from [] cp &&
@@ -257,7 +259,7 @@ Fixpoint holds_from (s : hstate) (es : list event) (os : list obs) : bool :=
   | [] => true
   | e :: es' =>
       match e with
-      | ELog l => holds_from (mkHS (hs_cpidx s) (hs_cp s) (hs_segs s ++ l) (hs_g s)) es' os
+      | ELog l => holds_from (mkHS (hs_cpidx s) (hs_cp s) (hs_segs s ++ l) (hs_g s) (hs_rs s)) es' os
       | ETruncate init mint _ _ =>
           match os with
           | OTrunc cpidx cp _ _ _ _ _ :: os' =>
@@ -269,7 +271,7 @@ Fixpoint holds_from (s : hstate) (es : list event) (os : list obs) : bool :=
           | _ => false
           end
       | EEvict _ _ | ERoll => holds_from s es' os
-      | ERestart _ _ => holds_from s es' (tl os)
+      | ERestart _ _ => holds_from (mkHS (hs_cpidx s) (hs_cp s) (hs_segs s) (hs_g s) true) es' (tl os)
       end
   end.
 
@@ -281,29 +283,30 @@ Fixpoint aholds_from (s : hstate) (es : list aevent) (os : list aobs) : bool :=
   | [] => true
   | e :: es' =>
       match e with
-      | ALog l => aholds_from (mkHS (hs_cpidx s) (hs_cp s) (hs_segs s ++ l) (hs_g s)) es' os
+      | ALog l => aholds_from (mkHS (hs_cpidx s) (hs_cp s) (hs_segs s ++ l) (hs_g s) (hs_rs s)) es' os
       | ATruncate mint _ =>
           match os with
           | OATrunc cpidx cp _ _ _ _ _ :: os' =>
               if cpidx =? hs_cpidx s then list_eqb rec_eqb cp (hs_cp s) && aholds_from s es' os'
               else
-                let s' := mkHS cpidx cp (hs_segs s) (Z.max (hs_g s) mint) in
+                let s' := mkHS cpidx cp (hs_segs s) (Z.max (hs_g s) mint) (hs_rs s) in
                 let g := hs_g s' in
                 same_view g [] (replay_data minInt64 (hs_log s')) (replay_data minInt64 (hs_log s)) &&
-                (negb (nodupb (map fst (series_pairs (hs_full s)))) ||
+                (hs_rs s || negb (nodupb (map fst (series_pairs (hs_full s)))) ||
                  same_view g [] (replay_data minInt64 (hs_log s')) (replay_data minInt64 (hs_full s))) &&
                 preceded minInt64 (hs_log s') &&
                 nodupb (flat_map (fun r => map fst (series_of_rec r)) (hs_log s')) &&
                 aholds_from s' es' os'
           | [] => false
           end
-      | _ => aholds_from s es' os
+      | ARestart _ _ => aholds_from (mkHS (hs_cpidx s) (hs_cp s) (hs_segs s) (hs_g s) true) es' os
+      | ARoll => aholds_from s es' os
       end
   end.
 
 Definition holds (c : case) : bool :=
-  holds_from (mkHS (-1) [] [] minInt64) (c_events c) (c_obs c) &&
-  aholds_from (mkHS (-1) [] [] minInt64) (c_aevents c) (c_aobs c).
+  holds_from (mkHS (-1) [] [] minInt64 false) (c_events c) (c_obs c) &&
+  aholds_from (mkHS (-1) [] [] minInt64 false) (c_aevents c) (c_aobs c).
 
 Definition mismatches (cs : list case) : list Z := map c_id (filter (fun c => negb (agree c)) cs).
 Definition failing_holds (cs : list case) : list Z := map c_id (filter (fun c => negb (holds c)) cs).
